@@ -596,7 +596,7 @@ theorem reasmStep_eq (buffer : Bytes) : Codec.reasmStep buffer = .ok (Model.reas
        | some start =>
          simp only
          have hne : ((-1 : Int) ≠ (start : Int)) := by omega
-         rw [if_pos (by ne_pos hne)]
+         first | rw [if_pos (by ne_pos hne)] | rw [if_neg (by simp only [decide_eq_true_eq]; omega)]
          rw [slice_drop]
          unfold takePacket
          by_cases h6 : (buffer.drop start).length < 6
